@@ -145,7 +145,14 @@ def run(ctx):
                 if f in v and fmt_name in ("narrowpeak", "bed6") and r.random() < 0.25:
                     v[f] = r.choice(NEG)
                     rec["texts"][list(FORMATS[fmt_name].fields).index(f)] = str(v[f])
-            if fmt_name in ("fastaw", "fasta2") and r.random() < 0.5:
+            if fmt_name in ("fastq", "fasta2") and r.random() < 0.15:
+                # a record with an empty sequence (and no qualities) is representable: '@name', '', '+', ''
+                v["sequence"] = ""
+                rec["texts"][1] = ""
+                if fmt_name == "fastq":
+                    v["quality"] = []
+                    rec["texts"][-1] = ""
+            elif fmt_name in ("fastaw", "fasta2") and r.random() < 0.5:
                 L = r.choice([1, 79, 80, 81, 159, 160, 161, 240])
                 v["sequence"] = "".join(r.choice("ACGT") for _ in range(L))
                 rec["texts"][1] = v["sequence"]
